@@ -78,15 +78,21 @@ pub fn verif_clone_block_id(b: &BlockId) -> (r: BlockId) ensures r == *b { unimp
 // ---------------------------------------------------------------- C20 specification (from the statement)
 // "a deterministic function of the parent's commitment ..., with unknown parents falling back to the parent block hash":
 // the parent's COMPUTED state if this node executed it, else the parent block hash, else genesis.
-// "This node executed block id": it is tracked under its full id, or under its slot alone (dissemination path, hash unknown
-// while it streams) and its hash is not known to differ.  Until finding F29 the slot-only entry matched ANY id of that slot:
-// with an equivocating leader the sibling this node happened to receive stood in for a parent it had never seen.
-pub open spec fn spec_lookup(blocks: Map<InProgressBlock, BlockExec>, id: BlockId) -> Option<BlockExec> {
-    if blocks.contains_key(InProgressBlock::Known(id)) { Some(blocks[InProgressBlock::Known(id)]) }
-    else if blocks.contains_key(InProgressBlock::Pending(id.0))
-        && (blocks[InProgressBlock::Pending(id.0)].block_hash is None || blocks[InProgressBlock::Pending(id.0)].block_hash == Some(id.1))
-        { Some(blocks[InProgressBlock::Pending(id.0)]) }
+// "This node executed block id": the block tracked under id's full id - or, failing that, under id's slot alone
+// (dissemination path) - has ENDED under exactly this hash.  A block that is still streaming has no final state yet (and,
+// tracked by slot, not even a hash).  Until finding F29 the slot-only entry matched ANY id of that slot: with an
+// equivocating leader the sibling this node happened to receive stood in for a parent it had never seen; until the follow-up
+// repair a block still streaming matched as well and handed its partial state to a child.
+pub open spec fn spec_entry(blocks: Map<InProgressBlock, BlockExec>, id: BlockId) -> Option<InProgressBlock> {
+    if blocks.contains_key(InProgressBlock::Known(id)) { Some(InProgressBlock::Known(id)) }
+    else if blocks.contains_key(InProgressBlock::Pending(id.0)) { Some(InProgressBlock::Pending(id.0)) }
     else { None }
+}
+pub open spec fn spec_lookup(blocks: Map<InProgressBlock, BlockExec>, id: BlockId) -> Option<BlockExec> {
+    match spec_entry(blocks, id) {
+        Some(k) => if blocks[k].block_hash == Some(id.1) { Some(blocks[k]) } else { None },
+        None => None,
+    }
 }
 pub open spec fn spec_seed(blocks: Map<InProgressBlock, BlockExec>, parent: Option<BlockId>) -> Hash {
     match parent {
@@ -94,15 +100,14 @@ pub open spec fn spec_seed(blocks: Map<InProgressBlock, BlockExec>, parent: Opti
         Some(p) => match spec_lookup(blocks, p) { Some(e) => e.state_hash, None => p.1.0 },
     }
 }
-// end_block(id): the slot-only entry of id's slot learns its hash (if it has none yet and id is not tracked by full id)
+// end_block(id): the entry of id (by full id, else by slot) is marked as ended under id's hash, unless it has ended already
 pub open spec fn spec_record_hash(blocks: Map<InProgressBlock, BlockExec>, id: BlockId) -> Map<InProgressBlock, BlockExec> {
-    let k = InProgressBlock::Pending(id.0);
-    if !blocks.contains_key(InProgressBlock::Known(id)) && blocks.contains_key(k) && blocks[k].block_hash is None {
-        blocks.insert(k, BlockExec { tx_count: blocks[k].tx_count, state_hash: blocks[k].state_hash, block_hash: Some(id.1) })
-    } else { blocks }
-}
-pub open spec fn spec_own_hash(id: InProgressBlock) -> Option<BlockHash> {
-    match id { InProgressBlock::Pending(_) => None, InProgressBlock::Known(b) => Some(b.1) }
+    match spec_entry(blocks, id) {
+        Some(k) => if blocks[k].block_hash is None {
+                blocks.insert(k, BlockExec { tx_count: blocks[k].tx_count, state_hash: blocks[k].state_hash, block_hash: Some(id.1) })
+            } else { blocks },
+        None => blocks,
+    }
 }
 
 pub mod code {
@@ -133,11 +138,11 @@ props C20
 rewrite[R9] `|(_, block_hash)| block_hash` => `|verif_p: BlockId| verif_p.1`
 ensures
         // [C20.block_state_seeded_from_parent_commitment_or_parent_hash]
-        final(self).blocks@ == old(self).blocks@.insert(id, BlockExec { tx_count: 0, state_hash: spec_seed(old(self).blocks@, parent), block_hash: spec_own_hash(id) }),
-        // [C20.unknown_parent_falls_back_to_its_block_hash] in particular when the block this node executed in the parent's slot is
-        // known to be another one (an equivocating leader's other block)
+        final(self).blocks@ == old(self).blocks@.insert(id, BlockExec { tx_count: 0, state_hash: spec_seed(old(self).blocks@, parent), block_hash: None }),
+        // [C20.unknown_parent_falls_back_to_its_block_hash] in particular when the block this node tracks in the parent's slot is
+        // another one (an equivocating leader's other block) or has not ended yet (no final state, hash unknown)
         (parent matches Some(p) && !old(self).blocks@.contains_key(InProgressBlock::Known(p)) && old(self).blocks@.contains_key(InProgressBlock::Pending(p.0))
-            && (old(self).blocks@[InProgressBlock::Pending(p.0)].block_hash matches Some(h) && h != p.1))
+            && old(self).blocks@[InProgressBlock::Pending(p.0)].block_hash != Some(p.1))
             ==> final(self).blocks@[id].state_hash == (parent->0).1.0,
 closure 0
         params p: &BlockId
@@ -191,12 +196,12 @@ after `exec.tx_count += transactions.len();`
 /*@ extract src/execution.rs :: impl ExecutionEngine for DummyExecution/fn end_block
 props C20
 rewrite*[R9] `block_id.clone()` => `verif_clone_block_id(&block_id)`
-rewrite[R8] `self.blocks.get_mut(&InProgressBlock::Pending(block_id.0))` => `verif_blocks_get_mut(&mut self.blocks, &InProgressBlock::Pending(block_id.0))`
+rewrite[R8] `self.blocks.get_mut(&key)` => `verif_blocks_get_mut(&mut self.blocks, &key)`
 rewrite[R8] `self.event_sender .try_send(ExecutionEvent::BlockExecuted { block_id, result: Ok(result), }) .expect("execution event channel should have capacity and a live receiver");` => `self.event_sender.verif_send(ExecutionEvent::BlockExecuted { block_id, result: Ok(result), });`
 rewrite[R9] `exec.state_hash.clone().into()` => `StateCommitment(exec.state_hash.clone())`
 ensures
-        // [C20.hash_of_a_streamed_block_is_recorded_when_it_ends] the block tracked under its slot alone gets this hash, once, unless the
-        // id belongs to a block tracked under its full id; nothing else changes
+        // [C20.hash_of_a_streamed_block_is_recorded_when_it_ends] the block tracked for this id (by full id, else by slot) is marked as
+        // ended under this hash, once; nothing else changes
         final(self).blocks@ == spec_record_hash(old(self).blocks@, block_id),
         // [C20.reported_commitment_is_the_computed_state_of_that_block] of the block with THIS id, not of a sibling in its slot
         spec_lookup(final(self).blocks@, block_id) matches Some(e) ==>
@@ -215,7 +220,7 @@ as canary_begin_block
 expect-fail
 rewrite[R9] `|(_, block_hash)| block_hash` => `|verif_p: BlockId| verif_p.1`
 ensures
-        final(self).blocks@ == old(self).blocks@.insert(id, BlockExec { tx_count: 0, state_hash: spec_genesis_hash().0, block_hash: spec_own_hash(id) }),
+        final(self).blocks@ == old(self).blocks@.insert(id, BlockExec { tx_count: 0, state_hash: spec_genesis_hash().0, block_hash: None }),
 @*/
 }
 
